@@ -40,6 +40,18 @@ func (w *recWriter) Write(b []byte) (int, error) {
 	return len(b), nil
 }
 
+// recStringWriter also has a WriteString method (as *bytes.Buffer, *os.File and *bufio.Writer have, and as types embedding
+// them inherit): the text is delivered "in a single Write", so WriteString must not be what receives it.
+type recStringWriter struct {
+	recWriter
+	stringWrites int
+}
+
+func (w *recStringWriter) WriteString(s string) (int, error) {
+	w.stringWrites++
+	return len(s), nil
+}
+
 func c16check(w *Worker, call *Call, r *Rng, idx int64) {
 	bc := newBuildCtx()
 	bc.memo = map[*D]interface{}{}
@@ -111,6 +123,24 @@ func c16check(w *Worker, call *Call, r *Rng, idx int64) {
 		}
 		if n != wantN || err != wantErr {
 			w.Violate("C16 F-result", "Fprint(f) returned ("+itoa(n)+", "+sprint(err)+"), the writer returned ("+itoa(wantN)+", "+sprint(wantErr)+") for "+call.String(), cs("Fprint(f)")())
+			return
+		}
+	}
+	// a writer that also offers WriteString
+	if ref.out != "" {
+		bc.resetCounters()
+		sw := &recStringWriter{}
+		func() {
+			defer func() { recover() }()
+			if call.Sp {
+				redact.Fprint(sw, args...)
+			} else {
+				redact.Fprintf(sw, format, args...)
+			}
+		}()
+		w.Eval(1)
+		if sw.stringWrites != 0 || len(sw.writes) != 1 {
+			w.Violate("C16 write-count", "Fprint(f) to a writer that also has WriteString performed "+itoa(len(sw.writes))+" Write and "+itoa(sw.stringWrites)+" WriteString calls for "+call.String(), cs("Fprint(f)")())
 			return
 		}
 	}
